@@ -750,7 +750,7 @@ def run(ctx: Check) -> int:
     if ctx.tier == "thorough":      # the same, exhaustively, over four roles
         worlds.append((base_world(("A", "B", "C", "D")), subsets(["A", "B", "C", "D"]), 1.0))
     rng = ctx.rng
-    for _ in range(ctx.n(1, 25)):
+    for _ in range(ctx.n(1, 15)):
         w = random_world(rng)
         us = subsets(w["roles"])
         worlds.append((w, us, 0.5))
@@ -784,7 +784,7 @@ def run(ctx: Check) -> int:
     hist_roles = ["A", "B"] if ctx.tier == "quick" else ["A", "B", "C"]
     hists = [c for c in load_corpus("C32") if c.get("kind") == "history"]
     hists += [{"kind": "history", "steps": sc, "roles": hist_roles} for sc in SCENARIOS]
-    for k in range(ctx.n(0, 30)):
+    for k in range(ctx.n(0, 16)):
         hists.append({"kind": "history", "steps": random_history(rng, hist_roles, ctx.n(7, 10), f"h{k}"),
                       "roles": hist_roles})
     engine = Engine(app)
